@@ -90,6 +90,31 @@ class _Stmts(ast.NodeTransformer):
 
     visit_AsyncFunctionDef = visit_Lambda = visit_ClassDef = visit_FunctionDef
 
+    list_names = frozenset()     # locals known to be python lists in this function
+    list_attrs = frozenset()     # attributes of self known to be python lists (set in __init__)
+
+    def visit_AugAssign(self, node):
+        """N12  lst += [x]  ->  lst.append(x) ;  lst += [x, y]  ->  lst.extend([x, y])   (python lists only)"""
+        t = node.target
+        is_list = (isinstance(t, ast.Name) and t.id in self.list_names) or \
+            (isinstance(t, ast.Attribute) and isinstance(t.value, ast.Name) and t.value.id == 'self'
+             and t.attr in self.list_attrs)
+        if is_list and isinstance(node.op, ast.Add) and isinstance(node.value, ast.List) and \
+                not any(isinstance(e, ast.Starred) for e in node.value.elts) and node.value.elts:
+            self.changed = True
+            recv = copy.deepcopy(t)
+            for x in ast.walk(recv):
+                if hasattr(x, 'ctx'):
+                    x.ctx = ast.Load()
+            if len(node.value.elts) == 1:
+                call = ast.Call(func=ast.Attribute(value=recv, attr='append', ctx=ast.Load()),
+                                args=[node.value.elts[0]], keywords=[])
+            else:
+                call = ast.Call(func=ast.Attribute(value=recv, attr='extend', ctx=ast.Load()),
+                                args=[node.value], keywords=[])
+            return ast.copy_location(ast.Expr(value=call), node)
+        return node
+
     def visit_AnnAssign(self, node):
         if node.value is not None and node.simple and isinstance(node.target, ast.Name) or \
                 (node.value is not None and isinstance(node.target, (ast.Attribute, ast.Subscript))):
@@ -399,12 +424,38 @@ def _in_loop(fn, assign):
     return False
 
 
-def normalize_function(fn, resolver=None):
+def _list_locals(fn):
+    """locals every plain assignment of which is a list display / list(..) / list comprehension"""
+    vals = {}
+    for n in _walk_scope(fn):
+        if isinstance(n, ast.Assign):
+            for t in n.targets:
+                if isinstance(t, ast.Name):
+                    vals.setdefault(t.id, []).append(n.value)
+                else:
+                    for x in ast.walk(t):
+                        if isinstance(x, ast.Name) and isinstance(x.ctx, ast.Store):
+                            vals.setdefault(x.id, []).append(None)
+        elif isinstance(n, (ast.For, ast.comprehension)):
+            for x in ast.walk(n.target):
+                if isinstance(x, ast.Name):
+                    vals.setdefault(x.id, []).append(None)
+
+    def listy(v):
+        return isinstance(v, (ast.List, ast.ListComp)) or \
+            (isinstance(v, ast.Call) and isinstance(v.func, ast.Name) and v.func.id in ('list', 'sorted', 'flat'))
+    return frozenset(k for k, vs in vals.items() if vs and all(v is not None and listy(v) for v in vs)
+                     and k not in _params(fn))
+
+
+def normalize_function(fn, resolver=None, list_attrs=frozenset()):
     """-> (new FunctionDef, changed)"""
     new = copy.deepcopy(fn)
     changed = False
     # N1-N3
     st = _Stmts()
+    st.list_names = _list_locals(new)
+    st.list_attrs = list_attrs
     new.body = _flat([st.visit(s) for s in new.body])
     changed |= st.changed
     # N4
